@@ -120,9 +120,8 @@ theorem ctanh_mul_cosh (z : Cx ℝ) (h : Complex.cosh (toC z) ≠ 0) :
 /-- the non-vanishing hypotheses above are satisfiable (z = 1 + i) -/
 example : Complex.sin (toC ⟨1, 1⟩) ≠ 0 ∧ Complex.cos (toC ⟨1, 1⟩) ≠ 0 ∧
     Complex.sinh (toC ⟨1, 1⟩) ≠ 0 ∧ Complex.cosh (toC ⟨1, 1⟩) ≠ 0 := by
-  have h1 : Real.sin 1 ≠ 0 := (Real.sin_pos_of_pos_of_lt_pi one_pos (by linarith [Real.pi_gt_three])).ne'
-  have h2 : Real.cos 1 ≠ 0 :=
-    (Real.cos_pos_of_mem_Ioo ⟨by linarith [Real.pi_gt_three], by linarith [Real.pi_gt_three]⟩).ne'
+  have h1 : Real.sin 1 ≠ 0 := (Real.sin_pos_of_pos_of_lt_pi one_pos (by linarith [Real.two_le_pi])).ne'
+  have h2 : Real.cos 1 ≠ 0 := Real.cos_one_pos.ne'
   have h3 : Real.sinh 1 ≠ 0 := (Real.sinh_pos_iff.mpr one_pos).ne'
   have h4 : Real.cosh 1 ≠ 0 := (Real.cosh_pos 1).ne'
   refine ⟨?_, ?_, ?_, ?_⟩
@@ -166,7 +165,8 @@ theorem atan2_neg_nonneg (y x : ℝ) (hx : x < 0) (hy : 0 ≤ y) :
     Complex.arg_of_re_neg_of_im_nonneg (x := ⟨x, y⟩) hx hy,
     Complex.arg_of_re_nonneg (x := ⟨-x, -y⟩) (by simp; linarith)]
   have : ‖(⟨-x, -y⟩ : ℂ)‖ = ‖(⟨x, y⟩ : ℂ)‖ := by
-    rw [← norm_neg]; rfl
+    have e : (⟨-x, -y⟩ : ℂ) = -⟨x, y⟩ := by apply Complex.ext <;> simp
+    rw [e, norm_neg]
   rw [this]; rfl
 
 /-- third quadrant: `atan2 y x = arctan (y/x) − π` -/
@@ -178,7 +178,8 @@ theorem atan2_neg_neg (y x : ℝ) (hx : x < 0) (hy : y < 0) :
     Complex.arg_of_re_neg_of_im_neg (x := ⟨x, y⟩) hx hy,
     Complex.arg_of_re_nonneg (x := ⟨-x, -y⟩) (by simp; linarith)]
   have : ‖(⟨-x, -y⟩ : ℂ)‖ = ‖(⟨x, y⟩ : ℂ)‖ := by
-    rw [← norm_neg]; rfl
+    have e : (⟨-x, -y⟩ : ℂ) = -⟨x, y⟩ := by apply Complex.ext <;> simp
+    rw [e, norm_neg]
   rw [this]; rfl
 
 /-- positive imaginary axis -/
@@ -221,5 +222,324 @@ theorem arg_cases (z : Cx ℝ) :
   · have : z.re = 0 := le_antisymm (not_lt.mp h1) (not_lt.mp h2)
     have h0 : z.im = 0 := le_antisymm (not_lt.mp h4) (not_lt.mp h5)
     rw [this, h0]; exact atan2_zero_zero
+
+/-! ### D. zero base in `cpow` / `cpowf`
+
+`cpow_spec`, `cpowf_spec`, `cpow_eq_cpow` assume `toC z ≠ 0`.  For `z = 0` the model evaluates
+`r2 = 0`, `th = atan2 0 0 = 0`, `powf 0 (w.re/2)`, and `ln 0`.  In the real interpretation
+`Real.log 0 = 0` and `0 ^ y = if y = 0 then 1 else 0` (Mathlib conventions), which gives the
+values below.  CAVEAT (class F, not provable here): in `f64`, `ln 0 = -inf`, so `cpow` with a zero
+base forms `cos (±inf)` or `0 · (-inf)` and returns NaN + NaN i for EVERY exponent, and
+`powf 0 (negative) = +inf`; the real-interpretation values for `cpow` at a zero base therefore say
+nothing about `f64`.  For `cpowf` (which does not call `ln`) the values below agree with `f64` for
+`x ≥ 0` (`0^0 = 1`, `0^x = 0`) and differ for `x < 0` (`f64`: `inf + NaN i`). -/
+
+theorem toC_eq_zero_iff (z : Cx ℝ) : toC z = 0 ↔ z = ⟨0, 0⟩ := by
+  rw [← toC_inj]; rfl
+
+/-- the model's `0 ^ w` over ℝ: `1` when `Re w = 0` (whatever `Im w` is), `0` otherwise -/
+theorem cpow_zero_base (z w : Cx ℝ) (hz : toC z = 0) :
+    cpow z w = if w.re = 0 then ⟨1, 0⟩ else ⟨0, 0⟩ := by
+  rw [toC_eq_zero_iff] at hz
+  subst hz
+  have hform : cpow (⟨0, 0⟩ : Cx ℝ) w =
+      ⟨(0 * 0 + 0 * 0 : ℝ) ^ (1 / 2 * w.re) * Real.exp (-w.im * Complex.arg ⟨0, 0⟩) *
+          Real.cos (w.re * Complex.arg ⟨0, 0⟩ + 1 / 2 * w.im * Real.log (0 * 0 + 0 * 0)),
+        (0 * 0 + 0 * 0 : ℝ) ^ (1 / 2 * w.re) * Real.exp (-w.im * Complex.arg ⟨0, 0⟩) *
+          Real.sin (w.re * Complex.arg ⟨0, 0⟩ + 1 / 2 * w.im * Real.log (0 * 0 + 0 * 0))⟩ := rfl
+  have ha : Complex.arg ⟨0, 0⟩ = 0 := Complex.arg_zero
+  rw [hform, ha]
+  by_cases h : w.re = 0
+  · simp [h]
+  · simp [h]
+
+/-- the model's `0 ^ x` (real exponent) over ℝ: `1` for `x = 0`, `0` otherwise -/
+theorem cpowf_zero_base (z : Cx ℝ) (x : ℝ) (hz : toC z = 0) :
+    cpowf z x = if x = 0 then ⟨1, 0⟩ else ⟨0, 0⟩ := by
+  rw [toC_eq_zero_iff] at hz
+  subst hz
+  have hform : cpowf (⟨0, 0⟩ : Cx ℝ) x =
+      ⟨(0 * 0 + 0 * 0 : ℝ) ^ (1 / 2 * x) * Real.cos (x * Complex.arg ⟨0, 0⟩),
+        (0 * 0 + 0 * 0 : ℝ) ^ (1 / 2 * x) * Real.sin (x * Complex.arg ⟨0, 0⟩)⟩ := rfl
+  have ha : Complex.arg ⟨0, 0⟩ = 0 := Complex.arg_zero
+  rw [hform, ha]
+  by_cases h : x = 0
+  · simp [h]
+  · simp [h]
+
+/-- with `cpowf_spec`: over ℝ the model's real power is Mathlib's principal power on the WHOLE
+    domain (including the zero base, where Mathlib has `0 ^ 0 = 1`, `0 ^ x = 0`) -/
+theorem cpowf_eq_cpow (z : Cx ℝ) (x : ℝ) : toC (cpowf z x) = toC z ^ (x : ℂ) := by
+  by_cases hz : toC z = 0
+  · rw [cpowf_zero_base z x hz, hz]
+    by_cases h : x = 0
+    · simp [h]; rfl
+    · have : (x : ℂ) ≠ 0 := by exact_mod_cast h
+      simp [h, Complex.zero_cpow this]; rfl
+  · rw [cpowf_spec z x hz, Complex.cpow_def_of_ne_zero hz, mul_comm]
+
+/-- with `cpow_eq_cpow`: for a zero base the model agrees with Mathlib's `0 ^ w`
+    (`= if w = 0 then 1 else 0`) EXCEPT on the non-zero purely imaginary exponents, where the
+    model gives `1` and Mathlib `0` -/
+theorem cpow_zero_base_eq_cpow_iff (z w : Cx ℝ) (hz : toC z = 0) :
+    toC (cpow z w) = toC z ^ toC w ↔ (w.re = 0 → w.im = 0) := by
+  rw [cpow_zero_base z w hz, hz]
+  by_cases h : w.re = 0
+  · by_cases h' : w.im = 0
+    · have : toC w = 0 := by apply Complex.ext <;> simp [toC, h, h']
+      simp [h, h', this]; rfl
+    · have : toC w ≠ 0 := by
+        intro e; exact h' (congrArg Complex.im e)
+      simp only [h, if_true, Complex.zero_cpow this, h', imp_false, not_true_eq_false, iff_false]
+      intro e
+      have := congrArg Complex.re e
+      simp [toC] at this
+  · have : toC w ≠ 0 := by
+      intro e; exact h (congrArg Complex.re e)
+    simp [h, Complex.zero_cpow this]; rfl
+
+/-- whole-domain statement for `cpow`: Mathlib's principal power unless the base is zero and the
+    exponent is non-zero purely imaginary -/
+theorem cpow_eq_cpow_of (z w : Cx ℝ) (h : toC z ≠ 0 ∨ (w.re = 0 → w.im = 0)) :
+    toC (cpow z w) = toC z ^ toC w := by
+  by_cases hz : toC z = 0
+  · exact (cpow_zero_base_eq_cpow_iff z w hz).mpr (h.resolve_left (not_not.mpr hz))
+  · exact cpow_eq_cpow z w hz
+
+/-! ### B. real-axis reductions (continuation of `real_axis`)
+
+All for `z = ⟨x, 0⟩`.  The quotient functions are stated unconditionally; AT A POLE
+(`cos x = 0`, `sin x = 0`, `x = 0` for csch/coth) both sides are `0` by Mathlib's `x/0 = 0`
+(and `Real.tan x = sin x / cos x = 0` there), which is not what f64 returns — away from the
+poles the statements are the genuine ones. -/
+
+theorem toC_ofReal (x : ℝ) : toC ⟨x, 0⟩ = (x : ℂ) := rfl
+
+theorem eq_of_toC_eq_ofReal {z : Cx ℝ} {r : ℝ} (h : toC z = (r : ℂ)) : z = ⟨r, 0⟩ :=
+  toC_inj.mp h
+
+/-- square root of a complex number that is a non-negative real -/
+theorem csqrt_of_nonneg {w : Cx ℝ} {r : ℝ} (h : toC w = (r : ℂ)) (hr : 0 ≤ r) :
+    toC (csqrt w) = ((Real.sqrt r : ℝ) : ℂ) := by
+  rw [csqrt_form, h, Complex.arg_ofReal_of_nonneg hr, Complex.norm_real, Real.norm_eq_abs,
+    abs_of_nonneg hr]
+  simp
+
+/-- square root of a complex number that is a negative real: `i √(-r)` (principal branch) -/
+theorem csqrt_of_neg {w : Cx ℝ} {r : ℝ} (h : toC w = (r : ℂ)) (hr : r < 0) :
+    toC (csqrt w) = ((Real.sqrt (-r) : ℝ) : ℂ) * Complex.I := by
+  rw [csqrt_form, h, Complex.arg_ofReal_of_neg hr, Complex.norm_real, Real.norm_eq_abs,
+    abs_of_neg hr]
+  have : (((1 / 2 * π : ℝ) : ℂ)) * Complex.I = (π : ℂ) / 2 * Complex.I := by push_cast; ring
+  rw [this, Complex.exp_pi_div_two_mul_I]
+
+/-- sqrt on the non-negative real axis -/
+theorem csqrt_real_nonneg (x : ℝ) (hx : 0 ≤ x) : csqrt ⟨x, 0⟩ = ⟨Real.sqrt x, 0⟩ :=
+  eq_of_toC_eq_ofReal (csqrt_of_nonneg (toC_ofReal x) hx)
+
+/-- sqrt on the negative real axis: `i √(-x)` (principal branch, upper side of the cut) -/
+theorem csqrt_real_neg (x : ℝ) (hx : x < 0) : csqrt ⟨x, 0⟩ = ⟨0, Real.sqrt (-x)⟩ := by
+  apply toC_inj.mp
+  rw [csqrt_of_neg (toC_ofReal x) hx]
+  apply Complex.ext <;> simp [toC]
+
+/-- ln on the positive real axis -/
+theorem cln_real_pos (x : ℝ) (hx : 0 < x) : cln ⟨x, 0⟩ = ⟨Real.log x, 0⟩ := by
+  apply eq_of_toC_eq_ofReal
+  rw [cln_eq, toC_ofReal, Complex.ofReal_log hx.le]
+
+/-- ln on the negative real axis: `log (-x) + iπ` (principal branch, upper side of the cut) -/
+theorem cln_real_neg (x : ℝ) (hx : x < 0) : cln ⟨x, 0⟩ = ⟨Real.log (-x), π⟩ := by
+  apply toC_inj.mp
+  rw [cln_eq, toC_ofReal]
+  apply Complex.ext
+  · simp [toC, Complex.log_re]
+  · simp [toC, Complex.log_im, Complex.arg_ofReal_of_neg hx]
+
+/-- tan on the real axis (at `cos x = 0` both sides are `0` by convention; f64: ±large/inf) -/
+theorem ctan_real (x : ℝ) : ctan ⟨x, 0⟩ = ⟨Real.tan x, 0⟩ := by
+  apply eq_of_toC_eq_ofReal
+  rw [ctan_eq, toC_ofReal, Complex.ofReal_tan]
+
+/-- tanh on the real axis (no poles: `cosh x ≥ 1`) -/
+theorem ctanh_real (x : ℝ) : ctanh ⟨x, 0⟩ = ⟨Real.tanh x, 0⟩ := by
+  apply eq_of_toC_eq_ofReal
+  rw [ctanh_eq, toC_ofReal, Complex.ofReal_tanh]
+
+/-- sec on the real axis (at `cos x = 0` both sides are `0` by convention) -/
+theorem csec_real (x : ℝ) : csec ⟨x, 0⟩ = ⟨(Real.cos x)⁻¹, 0⟩ := by
+  apply eq_of_toC_eq_ofReal
+  rw [csec_eq, toC_ofReal, Complex.ofReal_inv, Complex.ofReal_cos]
+
+/-- csc on the real axis (at `sin x = 0` both sides are `0` by convention) -/
+theorem ccsc_real (x : ℝ) : ccsc ⟨x, 0⟩ = ⟨(Real.sin x)⁻¹, 0⟩ := by
+  apply eq_of_toC_eq_ofReal
+  rw [ccsc_eq, toC_ofReal, Complex.ofReal_inv, Complex.ofReal_sin]
+
+/-- cot on the real axis (at `sin x = 0` both sides are `0` by convention) -/
+theorem ccot_real (x : ℝ) : ccot ⟨x, 0⟩ = ⟨Real.cos x / Real.sin x, 0⟩ := by
+  apply eq_of_toC_eq_ofReal
+  rw [ccot_eq, toC_ofReal, Complex.ofReal_div, Complex.ofReal_cos, Complex.ofReal_sin]
+
+/-- sech on the real axis (no poles) -/
+theorem csech_real (x : ℝ) : csech ⟨x, 0⟩ = ⟨(Real.cosh x)⁻¹, 0⟩ := by
+  apply eq_of_toC_eq_ofReal
+  rw [csech_eq, toC_ofReal, Complex.ofReal_inv, Complex.ofReal_cosh]
+
+/-- csch on the real axis (at `x = 0` both sides are `0` by convention; f64: inf/NaN) -/
+theorem ccsch_real (x : ℝ) : ccsch ⟨x, 0⟩ = ⟨(Real.sinh x)⁻¹, 0⟩ := by
+  apply eq_of_toC_eq_ofReal
+  rw [ccsch_eq, toC_ofReal, Complex.ofReal_inv, Complex.ofReal_sinh]
+
+/-- coth on the real axis (at `x = 0` both sides are `0` by convention; f64: inf/NaN) -/
+theorem ccoth_real (x : ℝ) : ccoth ⟨x, 0⟩ = ⟨Real.cosh x / Real.sinh x, 0⟩ := by
+  apply eq_of_toC_eq_ofReal
+  rw [ccoth_eq, toC_ofReal, Complex.ofReal_div, Complex.ofReal_cosh, Complex.ofReal_sinh]
+
+/-- convention-free forms of the real-axis reciprocals: the value is real and is THE number whose
+    product with the non-zero denominator is the numerator -/
+theorem reciprocals_real_mul (x : ℝ) :
+    (Real.cos x ≠ 0 → (ctan ⟨x, 0⟩).im = 0 ∧ (ctan ⟨x, 0⟩).re * Real.cos x = Real.sin x) ∧
+    (Real.cos x ≠ 0 → (csec ⟨x, 0⟩).im = 0 ∧ (csec ⟨x, 0⟩).re * Real.cos x = 1) ∧
+    (Real.sin x ≠ 0 → (ccsc ⟨x, 0⟩).im = 0 ∧ (ccsc ⟨x, 0⟩).re * Real.sin x = 1) ∧
+    (Real.sin x ≠ 0 → (ccot ⟨x, 0⟩).im = 0 ∧ (ccot ⟨x, 0⟩).re * Real.sin x = Real.cos x) ∧
+    ((ctanh ⟨x, 0⟩).im = 0 ∧ (ctanh ⟨x, 0⟩).re * Real.cosh x = Real.sinh x) ∧
+    ((csech ⟨x, 0⟩).im = 0 ∧ (csech ⟨x, 0⟩).re * Real.cosh x = 1) ∧
+    (x ≠ 0 → (ccsch ⟨x, 0⟩).im = 0 ∧ (ccsch ⟨x, 0⟩).re * Real.sinh x = 1) ∧
+    (x ≠ 0 → (ccoth ⟨x, 0⟩).im = 0 ∧ (ccoth ⟨x, 0⟩).re * Real.sinh x = Real.cosh x) := by
+  have hc : Real.cosh x ≠ 0 := (Real.cosh_pos x).ne'
+  rw [ctan_real, csec_real, ccsc_real, ccot_real, ctanh_real, csech_real, ccsch_real, ccoth_real]
+  refine ⟨fun h => ⟨rfl, ?_⟩, fun h => ⟨rfl, ?_⟩, fun h => ⟨rfl, ?_⟩, fun h => ⟨rfl, ?_⟩,
+    ⟨rfl, ?_⟩, ⟨rfl, ?_⟩, fun h => ⟨rfl, ?_⟩, fun h => ⟨rfl, ?_⟩⟩
+  · show Real.tan x * Real.cos x = Real.sin x
+    rw [Real.tan_eq_sin_div_cos, div_mul_cancel₀ _ h]
+  · exact inv_mul_cancel₀ h
+  · exact inv_mul_cancel₀ h
+  · exact div_mul_cancel₀ _ h
+  · show Real.tanh x * Real.cosh x = Real.sinh x
+    rw [Real.tanh_eq_sinh_div_cosh, div_mul_cancel₀ _ hc]
+  · exact inv_mul_cancel₀ hc
+  · exact inv_mul_cancel₀ (by rwa [Ne, Real.sinh_eq_zero])
+  · exact div_mul_cancel₀ _ (by rwa [Ne, Real.sinh_eq_zero])
+
+/-! inverse functions on the real axis -/
+
+/-- asin on `[-1, 1]` is the real arcsine -/
+theorem casin_real (x : ℝ) (h1 : -1 ≤ x) (h2 : x ≤ 1) : casin ⟨x, 0⟩ = ⟨Real.arcsin x, 0⟩ := by
+  apply eq_of_toC_eq_ofReal
+  have hw : toC (1 - (⟨x, 0⟩ : Cx ℝ) * ⟨x, 0⟩) = ((1 - x ^ 2 : ℝ) : ℂ) := by
+    rw [toC_sub, toC_one, toC_mul, toC_ofReal]; push_cast; ring
+  have hnn : 0 ≤ 1 - x ^ 2 := by nlinarith
+  rw [casin_eq, csqrt_of_nonneg hw hnn, toC_ofReal, ← Real.cos_arcsin]
+  have hx : (x : ℂ) = ((Real.sin (Real.arcsin x) : ℝ) : ℂ) := by rw [Real.sin_arcsin h1 h2]
+  have he : ((Real.cos (Real.arcsin x) : ℝ) : ℂ) + Complex.I * (x : ℂ) =
+      Complex.exp ((Real.arcsin x : ℂ) * Complex.I) := by
+    rw [Complex.exp_mul_I, ← Complex.ofReal_cos, ← Complex.ofReal_sin, ← hx]; ring
+  have hlo : -π < ((Real.arcsin x : ℂ) * Complex.I).im := by
+    simp; linarith [Real.neg_pi_div_two_le_arcsin x, Real.pi_pos]
+  have hhi : ((Real.arcsin x : ℂ) * Complex.I).im ≤ π := by
+    simp; linarith [Real.arcsin_le_pi_div_two x, Real.pi_pos]
+  rw [he, Complex.log_exp hlo hhi]
+  linear_combination (-(Real.arcsin x : ℂ)) * Complex.I_sq
+
+/-- acos on `[-1, 1]` is the real arccosine -/
+theorem cacos_real (x : ℝ) (h1 : -1 ≤ x) (h2 : x ≤ 1) : cacos ⟨x, 0⟩ = ⟨Real.arccos x, 0⟩ := by
+  apply eq_of_toC_eq_ofReal
+  have h := casin_add_cacos ⟨x, 0⟩
+  rw [casin_real x h1 h2, toC_ofReal] at h
+  rw [Real.arccos_eq_pi_div_two_sub_arcsin]
+  push_cast at h ⊢
+  linear_combination h
+
+/-- atan on the whole real axis is the real arctangent -/
+theorem catan_real (x : ℝ) : catan ⟨x, 0⟩ = ⟨Real.arctan x, 0⟩ := by
+  apply eq_of_toC_eq_ofReal
+  rw [catan_eq, toC_ofReal]
+  have e1 : (1 + Complex.I * (x : ℂ)) = ⟨1, x⟩ := by apply Complex.ext <;> simp
+  have e2 : (1 - Complex.I * (x : ℂ)) = ⟨1, -x⟩ := by apply Complex.ext <;> simp
+  have a1 : Complex.arg ⟨1, x⟩ = Real.arctan x := by
+    have := atan2_pos x 1 one_pos; rwa [div_one] at this
+  have a2 : Complex.arg ⟨1, -x⟩ = -Real.arctan x := by
+    have := atan2_pos (-x) 1 one_pos; rwa [div_one, Real.arctan_neg] at this
+  have n : ‖(⟨1, -x⟩ : ℂ)‖ = ‖(⟨1, x⟩ : ℂ)‖ := by
+    simp [Complex.norm_def, Complex.normSq_apply]
+  rw [e1, e2]
+  apply Complex.ext
+  · simp [Complex.log_im, a1, a2]; ring
+  · simp [Complex.log_re, n]
+
+/-- asinh on the whole real axis is the real `arsinh` -/
+theorem casinh_real (x : ℝ) : casinh ⟨x, 0⟩ = ⟨Real.arsinh x, 0⟩ := by
+  apply eq_of_toC_eq_ofReal
+  have hw : toC (addR ((⟨x, 0⟩ : Cx ℝ) * ⟨x, 0⟩) 1) = ((1 + x ^ 2 : ℝ) : ℂ) := by
+    rw [toC_addR, toC_mul, toC_ofReal]; push_cast; ring
+  have hpos : 0 < x + Real.sqrt (1 + x ^ 2) := by
+    have h0 : |x| < Real.sqrt (1 + x ^ 2) := by
+      rw [← Real.sqrt_sq_eq_abs]
+      exact Real.sqrt_lt_sqrt (sq_nonneg x) (by linarith)
+    linarith [neg_abs_le x]
+  rw [casinh_eq, csqrt_of_nonneg hw (by positivity), toC_ofReal, Real.arsinh,
+    Complex.ofReal_log hpos.le]
+  push_cast; ring_nf
+
+/-- atanh on `(-1, 1)` is the real `artanh` -/
+theorem catanh_real (x : ℝ) (h1 : -1 < x) (h2 : x < 1) : catanh ⟨x, 0⟩ = ⟨Real.artanh x, 0⟩ := by
+  apply eq_of_toC_eq_ofReal
+  have ha : (0 : ℝ) < 1 + x := by linarith
+  have hb : (0 : ℝ) < 1 - x := by linarith
+  have e1 : ((x : ℂ) + 1) = ((1 + x : ℝ) : ℂ) := by push_cast; ring
+  have e2 : (1 - (x : ℂ)) = ((1 - x : ℝ) : ℂ) := by push_cast; ring
+  rw [catanh_eq, toC_ofReal, e1, e2, ← Complex.ofReal_log ha.le, ← Complex.ofReal_log hb.le,
+    Real.artanh_eq_half_log ⟨h1.le, h2.le⟩, Real.log_div ha.ne' hb.ne']
+  push_cast; ring
+
+/-- acosh on `[1, ∞)` is the real `arcosh` -/
+theorem cacosh_real (x : ℝ) (h1 : 1 ≤ x) : cacosh ⟨x, 0⟩ = ⟨Real.arcosh x, 0⟩ := by
+  apply eq_of_toC_eq_ofReal
+  have hm : toC (subR (⟨x, 0⟩ : Cx ℝ) 1) = ((x - 1 : ℝ) : ℂ) := by
+    rw [toC_subR, toC_ofReal]; push_cast; ring
+  have hp : toC (addR (⟨x, 0⟩ : Cx ℝ) 1) = ((x + 1 : ℝ) : ℂ) := by
+    rw [toC_addR, toC_ofReal]; push_cast; ring
+  have hs : Real.sqrt (x - 1) * Real.sqrt (x + 1) = Real.sqrt (x ^ 2 - 1) := by
+    rw [← Real.sqrt_mul (by linarith)]; congr 1; ring
+  have hpos : 0 ≤ x + Real.sqrt (x ^ 2 - 1) := by positivity
+  rw [cacosh_eq, csqrt_of_nonneg hm (by linarith), csqrt_of_nonneg hp (by linarith), toC_ofReal,
+    Real.arcosh, Complex.ofReal_log hpos, ← hs]
+  push_cast; ring_nf
+
+/-! powers on the real axis -/
+
+/-- real exponent, non-negative real base: `Real.rpow` (including `0 ^ 0 = 1`, `0 ^ y = 0`) -/
+theorem cpowf_real (x y : ℝ) (hx : 0 ≤ x) : cpowf ⟨x, 0⟩ y = ⟨x ^ y, 0⟩ := by
+  apply eq_of_toC_eq_ofReal
+  rw [cpowf_eq_cpow, toC_ofReal, Complex.ofReal_cpow hx]
+
+/-- complex power with real positive base and real exponent: `Real.rpow` -/
+theorem cpow_real (x y : ℝ) (hx : 0 < x) : cpow ⟨x, 0⟩ ⟨y, 0⟩ = ⟨x ^ y, 0⟩ := by
+  apply eq_of_toC_eq_ofReal
+  have hz : toC (⟨x, 0⟩ : Cx ℝ) ≠ 0 := by
+    rw [toC_ofReal]; exact_mod_cast hx.ne'
+  rw [cpow_eq_cpow _ _ hz, toC_ofReal, toC_ofReal, Complex.ofReal_cpow hx.le]
+
+/-- the same at the zero base (through `Real.log 0 = 0`; f64 returns NaN here, see section D) -/
+theorem cpow_real_zero (y : ℝ) : cpow ⟨0, 0⟩ ⟨y, 0⟩ = ⟨(0 : ℝ) ^ y, 0⟩ := by
+  rw [cpow_zero_base _ _ rfl]
+  by_cases h : y = 0
+  · simp [h]
+  · simp [h, Real.zero_rpow h]
+
+/-- real exponent, negative real base: `|x|^y (cos πy + i sin πy)` (principal branch) -/
+theorem cpowf_real_neg (x y : ℝ) (hx : x < 0) :
+    cpowf ⟨x, 0⟩ y = ⟨(-x) ^ y * Real.cos (y * π), (-x) ^ y * Real.sin (y * π)⟩ := by
+  have ha : Complex.arg ⟨x, 0⟩ = π := Complex.arg_ofReal_of_neg hx
+  have hform : cpowf (⟨x, 0⟩ : Cx ℝ) y =
+      ⟨(x * x + 0 * 0 : ℝ) ^ (1 / 2 * y) * Real.cos (y * Complex.arg ⟨x, 0⟩),
+        (x * x + 0 * 0 : ℝ) ^ (1 / 2 * y) * Real.sin (y * Complex.arg ⟨x, 0⟩)⟩ := rfl
+  have hp : (x * x + 0 * 0 : ℝ) ^ (1 / 2 * y) = (-x) ^ y := by
+    have : (x * x + 0 * 0 : ℝ) = (-x) ^ (2 : ℝ) := by
+      rw [Real.rpow_two]; ring
+    rw [this, ← Real.rpow_mul (by linarith)]
+    congr 1; ring
+  rw [hform, ha, hp]
 
 end Ohsl.Props.C14
